@@ -37,7 +37,9 @@ func (c *c05) Rule() string {
 }
 
 func c05Inputs() []inputs.Input {
-	I := func(f string, n, p, v int) inputs.Input { return inputs.Input{Fam: f, N: n, P: p, V: v, Seed: uint64(n*31 + p*7 + v)} }
+	I := func(f string, n, p, v int) inputs.Input {
+		return inputs.Input{Fam: f, N: n, P: p, V: v, Seed: uint64(n*31 + p*7 + v)}
+	}
 	return []inputs.Input{
 		I("empty", 0, 0, 0),
 		I("text", 1, 0, 0), I("text", 2, 0, 0), I("text", 3, 0, 0), I("text", 16, 0, 0), I("text", 100, 0, 0),
@@ -235,6 +237,26 @@ func (c *c05) Plan(seed uint64, tier string, worker, workers, idx int) *Plan {
 
 const octet = "application/octet-stream|"
 
+// FaultReach says whether a consumer that asks for exactly the header (limit
+// bytes, everything when the limit is 0) of an n-byte stream meets the
+// injected fault, and whether the case is the one corner the contract leaves
+// open: the error rides on the very Read call that completes the header.
+func FaultReach(d simio.Delivery, n int, limit uint32) (reach, corner bool) {
+	k := d.FaultAt
+	if k < 0 || k > n {
+		return false, false
+	}
+	switch {
+	case limit == 0:
+		reach = true
+	case k < n && k < int(limit), k == n && n < int(limit):
+		reach = true
+	case k == int(limit) && d.FaultWithData && k > 0:
+		corner = true
+	}
+	return
+}
+
 func (c *c05) Check(rr *RunResult, st *Stats) []Failure {
 	fs := KernelFailures(rr)
 	fs = append(fs, CallerMemoryFailures(rr)...)
@@ -305,18 +327,7 @@ func (c *c05) Check(rr *RunResult, st *Stats) []Failure {
 			d = *op.Del
 		}
 		k := d.FaultAt
-		// Is the fault reached by a consumer that asks for exactly the header?
-		reach, corner := false, false
-		if k >= 0 && k <= n {
-			switch {
-			case limit == 0:
-				reach = true
-			case k < n && k < int(limit), k == n && n < int(limit):
-				reach = true
-			case k == int(limit) && d.FaultWithData && k > 0:
-				corner = true // the error rides on the Read call that completes the header
-			}
-		}
+		reach, corner := FaultReach(d, n, limit)
 		// consumption
 		consumed := -1
 		if res.Stream != nil {
